@@ -5,6 +5,7 @@ variation; second oracle = CPython's ast converted to the 3.4 dump shape (a case
 Literal values: literals in many spellings are compiled in eval mode and their VALUE compared (code points / bits) with CPython.
 Rejection oracle: by-construction invalid texts that CPython rejects too, and single-token mutations of valid programs judged
 by the one-sided rule 'CPython rejects and the feature filter passes => gpython must reject'."""
+import re as _re
 import ast, re, json, itertools, struct
 import common
 from common import rng
@@ -175,6 +176,28 @@ class G:
         """mandatory whitespace"""
         return self.r.choice([' ', ' ', ' ', '  ', '\t', ' \t '])
 
+    def spl(self, left, kw):
+        """white space between the text of an expression and a following keyword: needed only where the two would otherwise read as one
+        token.  `(a)if`, `'s'else`, `x[0]in` and a decimal integer directly followed by a keyword (`1if`, `0else`, `2and`) are legal
+        spellings (the tokenizer gives back the `e` of `1else`); `0or` / `0x..` / `0b..` would start a base prefix, so those keep the space."""
+        if self.r.random() < 0.3:
+            last = left[-1]
+            if last in ')]}\'"':
+                self.features.add('keyword-abutting')
+                return ''
+            m = _re.search(r'(?<![\w.])(\d+)$', left)
+            if m and not (m.group(1)[0] == '0' and kw[0] in 'oxbOXB') and kw[0] != 'j':
+                self.features.add('number-abutting-keyword')
+                return ''
+        return self.sp1()
+
+    def spr(self, right):
+        """white space between a keyword and the text of the following expression"""
+        if self.r.random() < 0.3 and right[0] in '([{\'"-+~':
+            self.features.add('keyword-abutting')
+            return ''
+        return self.sp1()
+
     def paren(self, e, minp, force=False):
         r = self.r
         if e.p < minp or force or (r.random() < 0.12 and e.kind != 'starred' and e.kind != 'yield'):
@@ -278,13 +301,16 @@ class G:
         if k == 6:
             o = self.paren(self.expr(d), 5)
             self.features.add('not')
-            return E('not' + self.sp1() + o.t, 'UnaryOp(op=Not(), operand=%s)' % o.d, 5)
+            return E('not' + self.spr(o.t) + o.t, 'UnaryOp(op=Not(), operand=%s)' % o.d, 5)
         if k == 7:
             n = r.choice([2, 2, 3])
             op, nm, p = r.choice([('and', 'And', 4), ('or', 'Or', 3)])
             vals = [self.paren(self.expr(d), p + 1) for _ in range(n)]
             self.features.add('boolop')
-            return E((self.sp1() + op + self.sp1()).join(v.t for v in vals), 'BoolOp(op=%s(), values=[%s])' % (nm, ', '.join(v.d for v in vals)), p)
+            txt = vals[0].t
+            for v in vals[1:]:
+                txt += self.spl(txt, op) + op + self.spr(v.t) + v.t
+            return E(txt, 'BoolOp(op=%s(), values=[%s])' % (nm, ', '.join(v.d for v in vals)), p)
         if k in (8, 9):
             n = r.choice([1, 1, 2, 3])
             left = self.paren(self.expr(d), 7)
@@ -295,7 +321,7 @@ class G:
                 ops.append(nm + '()')
                 comps.append(c.d)
                 opt = op if ' ' not in op else op.replace(' ', self.sp1())
-                txt += (self.sp1() if op[0].isalpha() else self.sp()) + opt + (self.sp1() if op[-1].isalpha() else self.sp()) + c.t
+                txt += (self.spl(txt, op) if op[0].isalpha() else self.sp()) + opt + (self.spr(c.t) if op[-1].isalpha() else self.sp()) + c.t
             self.features.add('compare-chain' if n > 1 else 'compare')
             return E(txt, 'Compare(left=%s, ops=[%s], comparators=[%s])' % (left.d, ', '.join(ops), ', '.join(comps)), 6)
         if k == 10:
@@ -303,7 +329,7 @@ class G:
             test = self.paren(self.expr(d), 3)
             orelse = self.paren(self.expr(d), 1)
             self.features.add('ifexp')
-            return E(body.t + self.sp1() + 'if' + self.sp1() + test.t + self.sp1() + 'else' + self.sp1() + orelse.t, 'IfExp(test=%s, body=%s, orelse=%s)' % (test.d, body.d, orelse.d), 2)
+            return E(body.t + self.spl(body.t, 'if') + 'if' + self.spr(test.t) + test.t + self.spl(test.t, 'else') + 'else' + self.spr(orelse.t) + orelse.t, 'IfExp(test=%s, body=%s, orelse=%s)' % (test.d, body.d, orelse.d), 2)
         if k == 11:
             a, ad = self.arguments(d, lam=True)
             body = self.paren(self.expr(d), 1)
@@ -464,11 +490,11 @@ class G:
             tt, td = self.target(min(d, 1), allow_tuple=True)
             it = self.paren(self.expr(d), 3)
             ifs = []
-            txt += self.sp1() + 'for' + self.sp1() + tt + self.sp1() + 'in' + self.sp1() + it.t
+            txt += self.sp1() + 'for' + self.spr(tt) + tt + self.spl(tt, 'in') + 'in' + self.spr(it.t) + it.t
             for _ in range(r.choice([0, 0, 1, 2])):
                 c = self.paren(self.expr(d), 3)
                 ifs.append(c.d)
-                txt += self.sp1() + 'if' + self.sp1() + c.t
+                txt += self.spl(txt, 'if') + 'if' + self.spr(c.t) + c.t
             dumps.append('comprehension(target=%s, iter=%s, ifs=[%s])' % (td, it.d, ', '.join(ifs)))
         return txt, dumps
 
@@ -614,7 +640,7 @@ class G:
             if r.random() < 0.3:
                 return 'return', 'Return(value=None)'
             t, dd = self.testlist(d)
-            return 'return' + self.sp1() + t, 'Return(value=%s)' % dd
+            return 'return' + self.spr(t) + t, 'Return(value=%s)' % dd
         if k == 12:
             j = r.randrange(3)
             self.features.add('raise')
@@ -634,7 +660,7 @@ class G:
             t = self.paren(self.expr(d), 1)
             self.features.add('assert')
             if r.random() < 0.5:
-                return 'assert' + self.sp1() + t.t, 'Assert(test=%s, msg=None)' % t.d
+                return 'assert' + self.spr(t.t) + t.t, 'Assert(test=%s, msg=None)' % t.d
             m = self.paren(self.expr(d), 1)
             return 'assert' + self.sp1() + t.t + self.sp() + ',' + self.sp() + m.t, 'Assert(test=%s, msg=%s)' % (t.d, m.d)
         if k == 15:
@@ -730,12 +756,12 @@ class G:
         k = r.randrange(9)
         if k == 0:
             test = self.paren(self.expr(d), 1)
-            lines, body = self.block('if' + self.sp1() + test.t, d, depth, infunc, inloop)
+            lines, body = self.block('if' + self.spr(test.t) + test.t, d, depth, infunc, inloop)
             orelse = '[]'
             chain = []
             for _ in range(r.choice([0, 0, 1, 2])):
                 t2 = self.paren(self.expr(d), 1)
-                l2, b2 = self.block('elif' + self.sp1() + t2.t, d, depth, infunc, inloop)
+                l2, b2 = self.block('elif' + self.spr(t2.t) + t2.t, d, depth, infunc, inloop)
                 chain.append((t2.d, l2, b2))
                 self.features.add('elif')
             else_d = None
@@ -752,7 +778,7 @@ class G:
             return lines, 'If(test=%s, body=[%s], orelse=%s)' % (test.d, ', '.join(body), tail), False
         if k == 1:
             test = self.paren(self.expr(d), 1)
-            lines, body = self.block('while' + self.sp1() + test.t, d, depth, infunc, True)
+            lines, body = self.block('while' + self.spr(test.t) + test.t, d, depth, infunc, True)
             orelse = []
             if r.random() < 0.3:
                 l3, orelse = self.block('else', d, depth, infunc, inloop)
